@@ -34,7 +34,7 @@ chk('C17', 'model_checking',
     'TLC proves certificate == Bellman-Ford on every multigraph of the small class (and that every single-entry perturbation is rejected), enumerates every multigraph '
     'on 4 nodes with <=3 (quick) / <=4 (thorough) edges incl. self-loops, parallel and zero-weight edges for replay, and judges the matrices the real dijkstra / johnsons / '
     'floyd_warshall / ConstrainedFDLayout::readLinearD,G return for those and for seeded random graphs up to 100 / 200 nodes. Exact equality on a 1/8 weight lattice.',
-    'Weights are multiples of 1/8 (sums exact in doubles). floyd_warshall was repaired (fix: commit) after this check found F1. Extra stage beyond the statement: Heap.tla / HeapTrace.tla (the PairingHeap under Dijkstra and VPSC: call histories generated from the specification, every recorded call of the real heap validated).',
+    'Weights are multiples of 1/8 (sums exact in doubles). floyd_warshall was repaired (fix: commit) after this check found F1. Extra stage beyond the statement: Heap.tla / HeapTrace.tla (the PairingHeap under Dijkstra and VPSC: call histories generated from the specification, every recorded call of the real heap validated). Also beyond the statement: cola::connectedComponents / separateComponents (connected_components.cpp, an anchored file) judged on every record by ComponentsOK / SeparateOK of ShortestPaths.tla.',
     'TLA+ Bellman-Ford/certificate specification; TLC-enumerated multigraphs replayed; record validation', '4/C17')
 
 chk('C09', 'model_checking',
